@@ -118,4 +118,15 @@ MetaTruth == phase = "done" =>
 PercExtremes == (phase = "done" /\ perc = "one" => slots = InteriorSlots(R, C))
              /\ (phase = "done" /\ perc = "zero" => Cardinality(slots) = Cardinality(visited) - 1)
 DepthNonNeg == depth >= 0
+
+\* ---------------------------------------------------------------- termination
+\* an extending iteration visits a new cell and lengthens the stack by at most one, every other iteration shortens the stack:
+\* 2 * (unvisited cells) + Len(stack) strictly decreases, so the loop body runs at most 3 * R * C times whatever the random choices.
+Measure == CASE phase = "loop" -> 2 + 2 * (R * C - Cardinality(visited)) + Len(stack)
+             [] phase = "perc" -> 1
+             [] OTHER -> 0
+MeasureNat == Measure >= 0 /\ Measure <= 3 * R * C + 2
+Terminates == [][Measure' < Measure]_gvars
+FairSpec == Spec /\ WF_gvars(Next)
+Returns == <>(phase = "done")
 ===========================================================================
